@@ -2714,15 +2714,19 @@ func (e *executor) translateCall(index string, idx *Index, c *pql.Call) error {
 		// are only two possible values. Instead, they are handled
 		// directly.
 		if field.Type() == FieldTypeBool {
-			boolVal, err := callArgBool(c, rowKey)
-			if err != nil {
-				return errors.Wrap(err, "getting bool key")
+			// The row argument is optional for some calls (Rows previous=, MinRow, MaxRow ...):
+			// translate it only when it is there; calls that need it complain downstream.
+			if _, present := c.Args[rowKey]; present {
+				boolVal, err := callArgBool(c, rowKey)
+				if err != nil {
+					return errors.Wrap(err, "getting bool key")
+				}
+				rowID := falseRowID
+				if boolVal {
+					rowID = trueRowID
+				}
+				c.Args[rowKey] = rowID
 			}
-			rowID := falseRowID
-			if boolVal {
-				rowID = trueRowID
-			}
-			c.Args[rowKey] = rowID
 		} else if field.keys() {
 			if c.Args[rowKey] != nil && !isString(c.Args[rowKey]) {
 				return errors.New("row value must be a string when field 'keys' option enabled")
